@@ -197,7 +197,26 @@ class GwWorld:
             peer.on_write = on_write
         else:
             self.transport = SimTransport(self)
-        self.gateway = Gateway(self.transport, Config(metric=cfg.get("metric", True)))
+        self.disk = None
+        self._fs = None
+        if cfg.get("persist"):
+            # persistence configured: simulated disk behind aiofiles, context entered for the whole run
+            from .fs import SimDisk, patched_fs
+
+            self.disk = SimDisk(self)
+            self._fs = patched_fs(self.disk)
+            self._fs.__enter__()
+            self.loop.exec_latency = lambda: self.tapes.next("exec.lat", 0)
+            if cfg.get("image") is not None:
+                self.disk.files["/sim/persistence.json"] = bytearray(cfg["image"].encode())
+            self.gateway = Gateway(self.transport, Config(metric=cfg.get("metric", True),
+                                                          persistence_file="/sim/persistence.json"))
+            t = self.loop.create_task(self.gateway.__aenter__())
+            self.loop.run_until_idle(50)
+            if not t.done() or t.exception() is not None:
+                raise RuntimeError(f"could not enter the gateway context: {t.exception() if t.done() else 'hang'}")
+        else:
+            self.gateway = Gateway(self.transport, Config(metric=cfg.get("metric", True)))
         if cfg.get("pin"):
             self.gateway.protocol_version = cfg["pin"]
         self._gen = None
@@ -243,6 +262,10 @@ class GwWorld:
             fields = None
             if isinstance(res, Message):
                 fields = (res.node_id, res.child_id, res.command, res.ack, res.message_type, res.payload)
+                if self.cfg.get("scribble", True):
+                    # the application owns the yielded object: mutate it, later lines must not be affected
+                    res.node_id, res.child_id, res.command, res.message_type = 254, 254, 1, 9999
+                    res.ack, res.payload = 1, "SCRIBBLED-BY-APPLICATION"
             obs = Obs("ok", fields=fields, writes=writes, nodes=nodes, version=version, proto=proto)
         if extra_attrs:
             obs.attrs.update(extra_attrs)
@@ -252,6 +275,8 @@ class GwWorld:
     # -- operations --------------------------------------------------------
     def listen_step(self, line: str | None, horizon: float = 1000.0, read_err: str | None = None) -> Obs:
         """Deliver one line (or a read error) and ask for the next message."""
+        if self.disk is not None:
+            horizon = min(horizon, 50.0)  # do not run into the background saver's 900 s timer at every step
         if self.link == "tcp":
             if line is not None:
                 data = line.encode("utf-8")
@@ -299,6 +324,8 @@ class GwWorld:
     NO_RAW = object()
 
     def send_step(self, fields, buffer: bool = True, horizon: float = 1000.0, raw=NO_RAW) -> Obs:
+        if self.disk is not None:
+            horizon = min(horizon, 50.0)
         msg = raw if raw is not GwWorld.NO_RAW else Message(*fields)
         self.log("app", "send", tuple(fields) if fields else repr(raw), buffer)
         task = self.loop.create_task(self.gateway.send(msg, message_buffer=buffer))
@@ -316,11 +343,16 @@ class GwWorld:
         self.log("app", "reenter")
 
         async def cycle():
-            await self.gateway.__aexit__(None, None, None)
-            await self.gateway.__aenter__()
+            try:
+                await self.gateway.__aexit__(None, None, None)
+            finally:
+                if self.disk is not None:
+                    self.disk.fault_on.clear()  # the disk is healthy again for the next session
+                    self.disk.faults.clear()
+                await self.gateway.__aenter__()
 
         t = self.loop.create_task(cycle())
-        self.loop.run_until_idle(100)
+        self.loop.run_until_idle(100 if self.disk is None else 50)
         self._wmark = len(self.writes)
         if not t.done():
             t.cancel()
@@ -336,7 +368,11 @@ class GwWorld:
             self.relisten()
         except Exception:  # noqa: BLE001
             pass
-        self.loop.shutdown()
+        try:
+            self.loop.shutdown()
+        finally:
+            if self._fs is not None:
+                self._fs.__exit__(None, None, None)
 
 
 class gc_paused:
